@@ -181,7 +181,7 @@ def objective_crosscheck(res, d, theta, S, lam, cert):
     for _ in range(10):
         P = tz.project_toeplitz(rng.normal(size=(n, n)), N, W)
         P = (P + P.T) / 2
-        Z = X + 1e-3 * P
+        Z = X + 1e-3 * float(np.linalg.eigvalsh(X)[0]) * P / max(1e-300, float(np.linalg.norm(P, 2)))    # stays inside the cone
         fz = tz.objective(Z, S, lam)
         if fz < fx - slack:
             res.violation("a feasible Toeplitz perturbation has objective %.10g < %.10g - slack" % (fz, fx), d)
